@@ -413,7 +413,14 @@ fn tmp_path(t: &Trace, tag: &str) -> std::path::PathBuf {
     dir.join(format!("c08-{}-{}-{}-{:?}-{tag}", std::process::id(), t.seed, t.run, std::thread::current().id()))
 }
 
+/// `execute_inner` under a guard: a panic of the code under test *outside* a client call (while the
+/// harness computes its one-shot reference for the input, say) is a violation like any other panic,
+/// not a crash of the harness.
 pub fn execute(t: &Trace, stats: &mut Stats, record: bool) -> Outcome {
+    guarded_execute(execute_inner, t, stats, record)
+}
+
+fn execute_inner(t: &Trace, stats: &mut Stats, record: bool) -> Outcome {
     let (mode, writer) = t.surface.split_once('/').unwrap_or(("never", "box_dyn"));
     let limit = match t.param("into_inner_after") {
         Some(k) if k >= 0 => (k as usize).min(t.ops.len()),
